@@ -580,3 +580,12 @@ PROPS["C11"]["functions"] = PROPS["C11"]["functions"] + ["Object::get_mapped_ent
 	"<BTreeMap<K, V> as TryFromJson>::try_from_json_at and its closure, Object::iter_mapped, object::IterMapped::next (from MIR; BTreeMap::new/insert, str::parse::<String>, Result::map_err, Try::branch, FromResidual are models of their contracts)", "<Vec<T> as TryFromJson>::try_from_json_at and its closure, <bool as TryFromJson>::try_from_json_at, <Vec<Value> as JsonArray>::iter_mapped, array::IterMapped::next and its closure, Value::kind, Mapped::new (from MIR)"]
 PROPS["C11"]["assumptions"] = PROPS["C11"]["assumptions"] + ["fragment check (MIR): SmallVec new/push/pop/extend(rev), slice iterators, Option::map/or_else/take and Iterator::filter+count are models of their std contracts; fragments are identified by their location in the value; counter-examples and every value of the quick bound are replayed on the real value parsed from text", "conversion check (MIR): std's Iterator::map + collect::<Result<Vec<_>,_>>() is a model of its contract (items in order, first Err returned at once); T::try_from_json_at is dispatched by target type (Vec<bool>, Vec<Vec<bool>>) as monomorphisation does; counter-examples and every value of the quick bound are replayed on the real conversion of a document parsed by the real parser", "mapped-lookup check (MIR): the code map is an uninterpreted volume function; the key index is the bucket-semantics model (C06); counter-examples are replayed on a document parsed by the real parser (every value an array of one item)"]
 PROPS["C11"]["outside"] = [x for x in PROPS["C11"]["outside"] if not x.startswith("mapped lookups on objects with two distinct keys")]
+
+
+# ---------------------------------------------------------------------------
+# level texts: what the second engine adds (appended here so that the texts above stay as designed)
+PROPS["C09"]["level_text"] += " Second engine (MIR + z3): Object::canonicalize_with as an operation of the object check (histories of <= 4 / 5 operations, one-character symbolic keys: str order and UTF-16 order both available to the solver), and Value::canonicalize_with recursively on nested values (objects in objects, objects in arrays, arrays in arrays; every key symbolic): members in UTF-16 order at every depth."
+PROPS["C10"]["level_text"] += " Second engine (MIR + z3): on nested values with a symbolic key at every position, canonicalization keeps the content (unordered-equal to the original), sorts and re-indexes every object at every depth, and a second call changes nothing."
+PROPS["C11"]["level_text"] += " Second engine (MIR + z3): all eight key-based mapped lookups and Object::iter_mapped on objects of <= 3 / 6 entries with symbolic keys, a symbolic offset and uninterpreted volumes; Value::get_fragment with a symbolic UNBOUNDED index, traverse() and volume() on nested values (depth <= 2, width <= 2 / 3); Vec<bool>, Vec<Vec<bool>> and BTreeMap<String, bool>::try_from_json_at with a symbolic offset on every value of a stated shape set."
+PROPS["C11"]["level_note"] = "Assumes the C05 layout of the code map (checked separately per fragment kind). The Kani instances cover one container level with symbolic child volumes; nested values, the unbounded index and the conversions are decided by the MIR engine on stated shape sets; the other TryFromJson conversions are outside."
+PROPS["C14"]["level_text"] += " Second engine (MIR + z3): Object's Clone / == / cmp / partial_cmp / hash on every object reachable by <= 4 operations with symbolic keys, against a twin rebuilt by pushes, its clone, its strict prefix, its reverse and its tail (laws between real, different objects)."
